@@ -456,11 +456,16 @@ pub fn explore_plans(prop: &'static str, tier: Tier, reporter: &Reporter, ev: &m
             p.depth_by_devs[0] += 1;
         }
     }
-    for p in plans.iter() {
+    let total = budget.mul_f64(budget_share);
+    let started = std::time::Instant::now();
+    for (i, p) in plans.iter().enumerate() {
+        // what the plans before this one did not use of their share is passed on
+        let left = total.saturating_sub(started.elapsed());
+        let share = (left / (plans.len() - i) as u32).max(per_plan / 4);
         let params = Params {
             depth_by_devs: p.depth_by_devs.clone(),
             max_states: if tier == Tier::Quick { 2_000_000 } else { 6_000_000 },
-            time_cap: per_plan,
+            time_cap: share,
             run_closure: true,
         };
         let st = explore::<RouterWorld>(&p.cfg, &params, reporter, ev);
